@@ -16,7 +16,7 @@ FILES = ["yamlpath/processor.py", "yamlpath/common/anchors.py", "yamlpath/wrappe
 FUNCTIONS = ["Processor.delete_nodes", "Processor._delete_nodes", "Processor.delete_gathered_nodes",
              "Processor._get_required_nodes and the segment handlers that gather the targets"]
 STUBS = ["logger: real ConsolePrinter(quiet)"]
-OUTSIDE = ["targets selected through anchors / YAML merge keys; sets; shapes and templates outside the catalogues",
+OUTSIDE = ["deleting a merged-in (inherited) key or a merge reference itself; sets; shapes and templates outside the catalogues",
            "which nodes a path matches is C01's claim: here the matched set comes from the C01 reference model"]
 ASSUMPTIONS = ["oracle: plain-data model 'remove exactly the matched positions, keep everything else in order'"]
 
@@ -181,6 +181,103 @@ def gathered(i: int, j: int, a: int, b: int, c: int) -> bool:
     return True
 
 
+ANC_TEXT = """---
+limits: &limits
+  cpu: 2
+  mem: 4
+base: &base
+  tier: 1
+services:
+  web:
+    <<: *base
+    limits: {cpu: 1}
+    name: web
+  db:
+    limits: *limits
+    name: db
+  api:
+    <<: *limits
+    name: api
+  one:
+    tier: 9
+    base: 3
+lst: &lst [1, 2]
+tg: 5
+tags: [&tg x, y, *tg, z]
+"""
+# (path in dot notation, own keys removed as (mapping trail, key), list elements removed as (list trail, indexes))
+ANC_DELETES = [
+    ("limits", [((), "limits")], []),
+    ("services.web.limits", [(("services", "web"), "limits")], []),
+    ("services.db.limits", [(("services", "db"), "limits")], []),
+    ("services.*.limits", [(("services", "web"), "limits"), (("services", "db"), "limits")], []),
+    ("services.one.base", [(("services", "one"), "base")], []),
+    ("services.*.name", [(("services", "web"), "name"), (("services", "db"), "name"), (("services", "api"), "name")], []),
+    ("tg", [((), "tg")], []),
+    ("lst", [((), "lst")], []),
+    ("tags[&tg]", [], [(("tags",), [0, 2])]),
+    ("tags[1]", [], [(("tags",), [1])]),
+    ("services.one.tier", [(("services", "one"), "tier")], []),
+]
+
+
+def _own(m):
+    return [(k, v) for k, v in m.non_merged_items()] if hasattr(m, "non_merged_items") else list(m.items())
+
+
+def _own_image(node):
+    """Plain image by OWN keys (merged-in keys are not listed; merge references are listed by anchor name)."""
+    if isinstance(node, dict):
+        merges = [getattr(getattr(mn, "anchor", None), "value", None) for (_i, mn) in getattr(node, "merge", [])]
+        return ["map", merges, [[k, _own_image(v)] for k, v in _own(node)]]
+    if isinstance(node, list):
+        return ["seq", [_own_image(v) for v in node]]
+    return node
+
+
+def delete_anchored(k: int, slash: bool) -> bool:
+    """Deletes in a document with anchors, aliases and merge keys - among them keys NAMED like an anchor defined
+    elsewhere: exactly the matched own keys / elements disappear (also after dump -> strict reload)."""
+    import io
+    from crosshair import realize, NoTracing
+    from yamlpath.common import Parsers
+    k = realize(k)
+    path, keys, elements = ANC_DELETES[k]
+    if slash:
+        path = "/" + path.replace(".", "/")
+    with NoTracing():
+        (doc, ok) = Parsers.get_yaml_data(Parsers.get_yaml_editor(), LOG, ANC_TEXT, literal=True)
+        (ref, ok2) = Parsers.get_yaml_data(Parsers.get_yaml_editor(), LOG, ANC_TEXT, literal=True)
+    note(path=path)
+    for (trail, key) in keys:
+        cur = ref
+        for r in trail:
+            cur = cur[r]
+        del cur[key]
+    for (trail, idxs) in elements:
+        cur = ref
+        for r in trail:
+            cur = cur[r]
+        for i in sorted(idxs, reverse=True):
+            del cur[i]
+    for _ in Processor(LOG, doc).delete_nodes(path):
+        pass
+    got, want = _own_image(doc), _own_image(ref)
+    if got != want:
+        note(problem="document after the delete", got=got, expected=want)
+        return False
+    with NoTracing():
+        buf, buf2 = io.StringIO(), io.StringIO()
+        Parsers.get_yaml_editor().dump(doc, buf)
+        Parsers.get_yaml_editor().dump(ref, buf2)
+        (back, ok) = Parsers.get_yaml_data(Parsers.get_yaml_editor(), LOG, buf.getvalue(), literal=True)
+        (back2, ok2) = Parsers.get_yaml_data(Parsers.get_yaml_editor(), LOG, buf2.getvalue(), literal=True)
+    if not ok or not ok2 or _plain(back) != _plain(back2):
+        note(problem="reloaded document after the delete", got=_plain(back) if ok else None, expected=_plain(back2))
+        return False
+    return True
+
+
 PAIRS_Q = [("ML3", "idx"), ("ML4", "slice"), ("ML3", "el_gt"), ("ML4", "el_eq"), ("ML3", "star"), ("LL", "idx"),
            ("LL", "star"), ("ML0", "star"), ("LL", "idx_idx"), ("AOH3", "p"), ("AOHX", "at_gt"), ("AOH3", "idx_p"),
            ("MM", "p"), ("MM", "deep"), ("HOH", "star_p"), ("L3", "idx"), ("LNULL", "el_eq"), ("ML3", "barekey"),
@@ -229,6 +326,10 @@ def shards(tier, seed):
             continue
         seen.add((s, t))
         out.append(_mk(s, t, tier))
+    out.append(shard(PID, "anchored", "harness.c04", "delete_anchored(k, slash)", [("k", "int"), ("slash", "bool")],
+                     ["0 <= k < %d" % len(ANC_DELETES)], family="anchored", budget=900, kind="S",
+                     desc="deletes in a document with anchors, aliases and merge keys (keys named like an anchor defined "
+                          "elsewhere, aliased list elements by anchor, a key under a mapping that merges another anchor)"))
     out.append(shard(PID, "root", "harness.c04", "root_refused(kind, a)", [("kind", "int"), ("a", "int")],
                      ["0 <= kind <= 2", "-9 <= a <= 9"], family="root", budget=300,
                      desc="deleting the document root is refused and changes nothing"))
